@@ -270,6 +270,36 @@ class SIndex:
         return self.arr.__symeval__(m)
 
 
+class _SeriesLevelGroupBy:
+    """Series.groupby(level=0) over a concrete label index with (possibly symbolic) values: groups are the distinct labels,
+    sorted when sort=True (the pandas default), otherwise in order of first appearance"""
+
+    def __init__(self, ser, sort):
+        labels = list(ser._index)
+        keys = []
+        for x in labels:
+            if x not in keys:
+                keys.append(x)
+        if sort:
+            keys = sorted(keys)
+        self.ser, self.keys = ser, keys
+        self.groups_pos = {k: [i for i, x in enumerate(labels) if x == k] for k in keys}
+
+    def _agg(self, f):
+        items = self.ser._col.items
+        return SSeries(_col=SArr([f([items[i] for i in self.groups_pos[k]]) for k in self.keys], self.ser._col.dtype),
+                       _index=_pd.Index(self.keys, name=self.ser._index.name), name=self.ser.name)
+
+    def first(self): return self._agg(lambda xs: xs[0])
+    def last(self): return self._agg(lambda xs: xs[-1])
+    def sum(self): return self._agg(lambda xs: ssum(xs))
+    def max(self): return self._agg(lambda xs: symnp.SArr(xs, self.ser._col.dtype).max())
+    def min(self): return self._agg(lambda xs: symnp.SArr(xs, self.ser._col.dtype).min())
+
+    def __getattr__(self, name):
+        raise Inconclusive(f"Series.groupby(level=0).{name}")
+
+
 class _RangeIndexMeta(type):
     def __instancecheck__(cls, o):
         return isinstance(o, _pd.RangeIndex) or (isinstance(o, SIndex) and o.is_range)
@@ -351,6 +381,25 @@ class SSeries:
         if isinstance(idx, SIndex):
             idx = _pd.Index(idx.arr.to_real(), name=idx.name)
         return _pd.Series(col_real(self._col), index=idx, name=self.name)
+
+    def groupby(self, by=None, level=None, sort=True, **kw):
+        if by is None and level == 0 and isinstance(self._index, _pd.Index) and isinstance(self._col, SArr):
+            return _SeriesLevelGroupBy(self, sort)
+        if self.concrete():
+            return wrap(self.to_real().groupby(by=unwrap(by), level=level, sort=sort, **kw))
+        raise Inconclusive("Series.groupby form not modelled")
+
+    def duplicated(self, keep="first"):
+        items = self._col.codes.items if isinstance(self._col, SCat) else _A(self._col).items
+        n = len(items)
+        out = []
+        for i in range(n):
+            others = range(i) if keep == "first" else range(i + 1, n)
+            out.append(or_(*[items[i] == items[j] for j in others]))
+        return SSeries(_col=SArr(out, bool), _index=self._index)
+
+    def drop_duplicates(self, keep="first", **kw):
+        return self[~self.duplicated(keep)]
 
     def __getattr__(self, name):
         if name.startswith("_"):
@@ -1160,8 +1209,13 @@ class _Loc:
             pos = [i for i, lab in enumerate(ia.items)
                    if builtins.bool(and_(True if lo is None else lab >= lo, True if hi is None else lab <= hi))]
             return "pos", pos
+        if isinstance(rk, SIndex):
+            rk = rk.arr
+        elif isinstance(rk, _pd.Index) and rk.dtype.kind in "iu":
+            rk = list(rk)
         if isinstance(rk, (SArr, _np.ndarray, list)) and (not hasattr(rk, "dtype") or rk.dtype.kind in "iu"):
-            # list of integer labels: each is looked up in the (integer) index; a missing label is a KeyError as in pandas
+            # list of integer labels: each is looked up in the (integer) index; a missing label is a KeyError as in pandas, a
+            # label that occurs several times selects all of its rows
             ia = _index_arr(obj._index, n)
             labs = ia.items if isinstance(ia, SArr) else list(ia)
             pos = []
@@ -1169,9 +1223,7 @@ class _Loc:
                 hits = [i for i, x in enumerate(labs) if builtins.bool(x == lab)]
                 if not hits:
                     raise KeyError(f"{lab} not in index")
-                if len(hits) > 1:
-                    raise Inconclusive("loc with a label list on an index with repeated labels")
-                pos.append(hits[0])
+                pos.extend(hits)
             return "pos", pos
         raise Inconclusive(f"loc with {type(rk)}")
 
@@ -1192,6 +1244,9 @@ class _Loc:
                     if isinstance(col, SCat):
                         return SSeries(_col=SCat(col.codes[sel if isinstance(sel, SArr) else _A(sel)], col.categories, col.ordered), name=ck)
                     return obj[ck]._rows(_mask_positions(sel, len(obj)))
+            if kind == "pos" and isinstance(obj, SFrame):
+                sub = obj._rows(sel)
+                return sub[ck]
             raise Inconclusive("loc[rows, cols] getter form")
         kind, sel = self._row_positions(k)
         if kind == "mask":
@@ -1438,8 +1493,25 @@ class SGroupBy:
 
     agg = aggregate
 
+    def _reduce(self, how):
+        r = self.aggregate(how)
+        if isinstance(self.cols, str):
+            # one value column picked by name: a Series labelled by the key values
+            gs = self.groups_()
+            if len(self.keys) == 1:
+                keyvals = [self._key_value(self.keys[0], g[0]) for g in gs]
+                if _b_all(not is_sym(k) for k in keyvals):
+                    return SSeries(_col=r._cols[self.cols], _index=_pd.Index(keyvals, name=self.keys[0]), name=self.cols)
+            raise Inconclusive("groupby(...)[col].<reduce> with symbolic or multiple keys")
+        return r
+
     def sum(self):
-        return self.aggregate("sum")
+        return self._reduce("sum") if isinstance(self.cols, str) else self.aggregate("sum")
+
+    def max(self): return self._reduce("max")
+    def min(self): return self._reduce("min")
+    def first(self): return self._reduce("first")
+    def last(self): return self._reduce("last")
 
     def apply(self, func, *a, **kw):
         parts = []
